@@ -47,9 +47,63 @@ static int do_check(const char *dir)
   return 0;
 }
 
+/* utilref dump <dir> <ff> <nf> <precision|-> {<conv><field>}...
+ *   what gd_getdata returns for the whole range, element by element, formatted with "%<precision><conv>":
+ *   "status <0|1>", "range <ff> <nf>" (after the defaults of the tool: nf 0 = to the end, ff -1 = the last nf frames),
+ *   then per field "field <i> <spf> <n_read> <n_want>" and n_want lines "<formatted>\t<raw>" (raw: %a or the
+ *   integer); elements past n_read are NaN / 0 as the tool pads them.  No index arithmetic of the tool is
+ *   reproduced here: the extracted Coq model says which element goes where. */
+static int do_dump(int argc, char **argv)
+{
+  const char *dir = argv[2];
+  long long ff = atoll(argv[3]), nf = atoll(argv[4]);
+  const char *prec = strcmp(argv[5], "-") ? argv[5] : "";
+  int i;
+  DIRFILE *D = gd_open(dir, GD_RDONLY);
+  if (gd_error(D)) { printf("status 1\n"); return 0; }
+  if (nf == 0) nf = gd_nframes64(D) - ff;
+  if (ff == -1) ff = gd_nframes64(D) - nf;
+  for (i = 6; i < argc; i++) { gd_spf(D, argv[i] + 1); if (gd_error(D)) { printf("status 1\n"); return 0; } }
+  if (nf < 0 || nf > 100000) { printf("status 2\n"); return 0; }
+  printf("status 0\nrange %lld %lld\n", ff, nf);
+  for (i = 6; i < argc; i++) {
+    const char *c = argv[i];
+    unsigned spf = gd_spf(D, c + 1);
+    size_t want = (size_t)nf * spf, n, k;
+    char fmt[64], one[2] = { c[0], 0 };
+    const char *f = c[0] == 'i' ? PRId64 : c[0] == 'o' ? PRIo64 : c[0] == 'u' ? PRIu64 : c[0] == 'x' ? PRIx64 : c[0] == 'X' ? PRIX64 : NULL;
+    snprintf(fmt, sizeof fmt, "%%%s%s", prec, f ? f : one);
+    if (strchr("aAeEfFgG", c[0])) {
+      double *b = malloc(sizeof(double) * (want + 1));
+      n = gd_getdata64(D, c + 1, ff, 0, nf, 0, GD_FLOAT64, b);
+      if (gd_error(D)) { printf("readerror\n"); return 0; }
+      printf("field %d %u %zu %zu\n", i - 6, spf, n, want);
+      for (k = 0; k < want; k++) { double v = k < n ? b[k] : NAN; printf(fmt, v); printf("\t%a\n", v); }
+      free(b);
+    } else if (c[0] == 'i') {
+      int64_t *b = malloc(sizeof(int64_t) * (want + 1));
+      n = gd_getdata64(D, c + 1, ff, 0, nf, 0, GD_INT64, b);
+      if (gd_error(D)) { printf("readerror\n"); return 0; }
+      printf("field %d %u %zu %zu\n", i - 6, spf, n, want);
+      for (k = 0; k < want; k++) { int64_t v = k < n ? b[k] : 0; printf(fmt, v); printf("\t%" PRId64 "\n", v); }
+      free(b);
+    } else {
+      uint64_t *b = malloc(sizeof(uint64_t) * (want + 1));
+      n = gd_getdata64(D, c + 1, ff, 0, nf, 0, GD_UINT64, b);
+      if (gd_error(D)) { printf("readerror\n"); return 0; }
+      printf("field %d %u %zu %zu\n", i - 6, spf, n, want);
+      for (k = 0; k < want; k++) { uint64_t v = k < n ? b[k] : 0; printf(fmt, v); printf("\t%" PRIu64 "\n", v); }
+      free(b);
+    }
+  }
+  gd_close(D);
+  return 0;
+}
+
 int main(int argc, char **argv)
 {
   if (argc >= 3 && !strcmp(argv[1], "check")) return do_check(argv[2]);
+  if (argc >= 7 && !strcmp(argv[1], "dump")) return do_dump(argc, argv);
   if (argc < 10 || strcmp(argv[1], "ascii")) return 2;
   {
     const char *dir = argv[2];
